@@ -1347,6 +1347,9 @@ func (st *Runtime) evaluateArgs(fnType reflect.Type, args CallArgs, pipedArg *re
 			return nil, fmt.Errorf("piped first argument for %s is not a valid value", fnType)
 		}
 		if !(*pipedArg).Type().AssignableTo(in) {
+			if !(*pipedArg).Type().ConvertibleTo(in) {
+				return nil, fmt.Errorf("piped first argument for %s of type %s is not convertible to %s", fnType, (*pipedArg).Type(), in)
+			}
 			*pipedArg = (*pipedArg).Convert(in)
 		}
 		argValues[slot] = *pipedArg
@@ -1367,6 +1370,9 @@ func (st *Runtime) evaluateArgs(fnType reflect.Type, args CallArgs, pipedArg *re
 			return nil, fmt.Errorf("argument for position %d in %s is not a valid value", slot, fnType)
 		}
 		if !term.Type().AssignableTo(in) {
+			if !term.Type().ConvertibleTo(in) {
+				return nil, fmt.Errorf("argument for position %d in %s of type %s is not convertible to %s", slot, fnType, term.Type(), in)
+			}
 			term = term.Convert(in)
 		}
 		argValues[slot] = term
@@ -1387,6 +1393,9 @@ func (st *Runtime) evaluateArgs(fnType reflect.Type, args CallArgs, pipedArg *re
 				return nil, fmt.Errorf("argument for position %d in %s is not a valid value", slot, fnType)
 			}
 			if !term.Type().AssignableTo(in) {
+				if !term.Type().ConvertibleTo(in) {
+					return nil, fmt.Errorf("argument for position %d in %s of type %s is not convertible to %s", slot, fnType, term.Type(), in)
+				}
 				term = term.Convert(in)
 			}
 			argValues[slot] = term
